@@ -259,3 +259,20 @@ PLAN["C08"] = {
     "thorough": [("rel", "c08.single.n2s3k4"), ("rel", "c08.single.n3s3pk3"), ("rel", "c08.pairs.n2s2k3"), ("rel", "c08.pairs.n2s3k2"), ("rel", "c08.hist.bu.d5"), ("rel", "c08.hist.td.d5"), ("asan", "c08.hist.bu.d3"), ("asan", "c08.hist.td.d3")],
     "require": {"all": ["transitions_into_sharing_states", "intersection_nonempty", "class_useless_states", "lang_nonempty"]},
 }
+
+PLAN["C13"] = {
+    "level": "exploration",
+    "rule": "(a) every AutDescription with <=3 rules over 3 state names (q, q0, 1) x 3 symbols with ranks 0..2 x every final set x named/anonymous: ParseString(Serialize(d)) == d, plus two textual "
+            "variants of the same description (nullary rules written with '()', runs of blanks/tabs, blank lines, sections reordered, no blanks at all); (b) every automaton of TA(2..3,Sigma,<=3) "
+            "in expl / bdd-bu / bdd-td and every NFA of FA(2..3,{a,b},<=4) (also with two start symbols on a start state) in expl_fa: load with a state dictionary, dump, load the dump with a "
+            "fresh dictionary, dump: first dump == loaded description, second dump == first; (c) arbitrary text: ALL token strings up to length 5 (6 in thorough) over a 17-token alphabet (keywords, "
+            "names, ':', numbers, parentheses, comma, arrow, blank, newline, byte 0xff) and every single and double token edit (delete / duplicate / replace by each token) of three valid templates, "
+            "each fed to TimbukParser::ParseString and LoadFromString of all four automaton classes, also under ASan+UBSan with a 5 s per-case limit: outcome must be success or std::exception; "
+            "crash, sanitizer report, foreign exception or timeout is a violation. Non-trivial = at least one rule / every text case",
+    "assumptions": COMMON_ASSUMPTIONS + ["'all byte strings' is decided only for the bounded token language above (deviation from well-formed text is bounded, not the length of the well-formed part)"],
+    "claim": "Every description / automaton / token string / token edit of the stated finite domains.",
+    "technique": "bounded exhaustive enumeration of descriptions, automata and token strings (all strings to a length, all 1- and 2-edit deviations from valid templates), sanitizer as crash oracle",
+    "quick": [("rel", "c13.desc.k3"), ("rel", "c13.enc.tree.n2s2k3"), ("rel", "c13.enc.tree.n3s3pk3"), ("rel", "c13.enc.fa.n3l2k4"), ("rel", "c13.text.len5"), ("rel", "c13.edit2"), ("asan", "c13.text.len4"), ("asan", "c13.edit1")],
+    "thorough": [("rel", "c13.desc.k3"), ("rel", "c13.enc.tree.n2s2k3"), ("rel", "c13.enc.tree.n3s3pk3"), ("rel", "c13.enc.fa.n3l2k4"), ("rel", "c13.text.len6"), ("asan", "c13.text.len5"), ("asan", "c13.edit2")],
+    "require": {"all": ["class_empty_final_set", "class_empty_transition_section", "class_nullary_rule", "class_start_state_with_two_start_symbols", "dump_load_cycles"]},
+}
